@@ -230,20 +230,38 @@ fn variants<V: Clone + Serialize + DeserializeOwned>(name: &str, v: V) -> Vec<(S
     out
 }
 
-/// States reached by clone_from: every third state of the zoo is copied into (a clone of) another state - alternately one
-/// chosen by rotation and the last (largest) state - which held something else before.
-fn with_clone_from<V: Clone>(zoo: &mut Vec<(String, V)>) {
+/// States reached by clone_from: every third state of the zoo is copied into (a clone of) another state which held something
+/// else before - alternately the largest state of the zoo (by serialized size) and one chosen by rotation.
+fn with_clone_from<V: Clone + Serialize>(zoo: &mut Vec<(String, V)>) {
     let n = zoo.len();
+    let largest = (0..n).max_by_key(|&i| bincode::serialized_size(&zoo[i].1).unwrap_or(0)).unwrap_or(0);
     for i in (0..n).step_by(3) {
-        for j in [if (i / 3) % 2 == 0 { (i * 7 + 3) % n } else { n - 1 }] {
-            if j != i {
-                let mut d = zoo[j].1.clone();
-                d.clone_from(&zoo[i].1);
-                let name = format!("clone_from({}) into a value that was {}", zoo[i].0, zoo[j].0);
-                zoo.push((name, d));
-            }
+        let j = if (i / 3) % 2 == 0 { largest } else { (i * 7 + 3) % n };
+        if j != i {
+            let mut d = zoo[j].1.clone();
+            d.clone_from(&zoo[i].1);
+            let name = format!("clone_from({}) into a value that was {}", zoo[i].0, zoo[j].0);
+            zoo.push((name, d));
         }
     }
+}
+
+/// What a caller does next with a bit vector it has just mutated: totals, clearing bits, freezing it and indexing it.
+/// (A mutator that leaves the value inconsistent - stale lines, a stale counter - shows here, not in the mutator.)
+fn follow_up(mut c: BitVectorMut) -> usize {
+    let n = c.len();
+    let mut acc = c.count_zeros() + c.count_ones();
+    for i in [n.wrapping_sub(1), n / 2, n / 3, 0] {
+        if i < n {
+            c.set(i, false);
+            acc += c.count_ones();
+        }
+    }
+    let bv: BitVector = c.into();
+    acc += bv.count_zeros();
+    let w = RSWide::new(bv.clone());
+    let nr = RSNarrow::new(bv);
+    acc + w.n_zeros() + nr.n_zeros() + w.select0(0).unwrap_or(0) + nr.select1(0).unwrap_or(0)
 }
 
 const SIZES: [usize; 22] = [0, 1, 2, 63, 64, 65, 127, 128, 129, 255, 256, 257, 511, 512, 513, 2047, 2048, 2049, 4095, 4096, 4097, 8193];
@@ -407,7 +425,7 @@ fn zoo_bitvectormut(ctx: &mut Ctx) {
             call(ctx, "push", bit as u128, 0, 0, false, || {
                 let mut c = b.clone();
                 c.push(bit);
-                c.len()
+                follow_up(c)
             });
         }
         for (bits, len) in [(0u64, 0usize), (1, 1), (3, 1), (0, 64), (u64::MAX, 64), (u64::MAX, 63), (5, 65), (0, 65), (1, UMAX), (0, UMAX)] {
@@ -415,14 +433,14 @@ fn zoo_bitvectormut(ctx: &mut Ctx) {
             call(ctx, "append_bits", bits as u128, len as u64, 0, documented, || {
                 let mut c = b.clone();
                 c.append_bits(bits, len);
-                c.len()
+                follow_up(c)
             });
         }
         for z in [0usize, 1, 63, 64, 65, 511, 512, 513, 5000] {
             call(ctx, "extend_with_zeros", 0, z as u64, 0, false, || {
                 let mut c = b.clone();
                 c.extend_with_zeros(z);
-                c.len()
+                follow_up(c)
             });
         }
         // beyond usize::MAX bits: the documented panic ("size exceeds usize::MAX bits") or an allocation failure
@@ -456,13 +474,13 @@ fn zoo_bitvectormut(ctx: &mut Ctx) {
         call(ctx, "shrink_to_fit", 0, 0, 0, false, || {
             let mut c = b.clone();
             c.shrink_to_fit();
-            c.len()
+            follow_up(c)
         });
         call(ctx, "extend", 0, 0, 0, false, || {
             let mut c = b.clone();
             c.extend(vec![true, false, true]);
             c.extend(Vec::<bool>::new());
-            c.len()
+            follow_up(c)
         });
         for pos in [vec![], vec![0usize], vec![n], vec![n + 1000], vec![5, 2, 5], vec![n.saturating_sub(1), 0]] {
             call(ctx, "extend", 1, pos.len() as u64, 0, false, || {
@@ -769,8 +787,9 @@ fn zoo_tree<X: Tree>(ctx: &mut Ctx) {
     {
         // clone_from between tree states (the alphabet bound m of the source travels with it)
         let n = zoo.len();
+        let largest = (0..n).max_by_key(|&i| bincode::serialized_size(&zoo[i].1).unwrap_or(0)).unwrap_or(0);
         for i in (0..n).step_by(3) {
-            for j in [if (i / 3) % 2 == 0 { (i * 7 + 3) % n } else { n - 1 }] {
+            for j in [if (i / 3) % 2 == 0 { largest } else { (i * 7 + 3) % n }] {
                 if j != i {
                     let mut d = zoo[j].1.clone();
                     d.clone_from(&zoo[i].1);
